@@ -54,6 +54,9 @@ STRENGTHENED = {
  "C05-r4m1": "round 4, first run: caught by C14 (c14_nested) only (index-based node store: a thread bound to ANOTHER manager takes a slot from a shared free list but leaves the exhausted list's head in place, so the slot is handed out twice and a live node overwritten). C05 now runs c14_nested (histories with gc and the reference-count audit after every step, executed inside a scope of a second manager).",
  "C07-r4m1": "round 4, first run: caught by C14 (c14_nested) only (freeing a slot from a thread bound to another manager chains it onto the newest shared free list without removing that list: overlapping lists, slots handed out twice). c14_nested now also runs its multi-threaded sweeps inside the outer scope and C07 lists it.",
  "C11-r4m1": "round 4, first run: missed (TDD eval initialises only the first 8 of the 16 two-bit entries per block to `unknown`: omitted variables at levels 8..15 mod 16 evaluate as true; needs >= 9 variables and an argument list that omits the variable). The 40-variable TDD evaluation now repeats every evaluation with the unknown variables omitted.",
+ "C01-r4m1": "round 4, first run: caught by C05 (c05_mtbdd_terminals) only (the iterator behind Manager::terminals() hands out edges without acquiring a reference: after an enumeration + gc a live constant's terminal is collected and its id reused, so handles of different constants compare equal). C01 now lists c05_mtbdd_terminals.",
+ "C08-r4m1": "round 4, first run: missed (set_var_order skips its second step - moving EMPTY levels into place - when the number of populated levels equals the request length; needs unused variables named in a partial request of exactly that length). Every third c08_rand case now has 1..3 variables no function depends on (per kind: ZBDD families without them) and such a request.",
+ "C13-r4m1": "round 4, first run: caught by C12 only (BCDD model counting scales twice at exactly 1021 variables: every F64 count is +inf and pick_cube_uniform always takes the else branch). c13_uniform now samples on managers with 1019..1023 (and 65, 128) variables with a chi-square test on three scattered active variables.",
 }
 rows = []
 for d in sorted(glob.glob(f"{ROOT}/seeded/C*-*m*")):
